@@ -91,6 +91,7 @@ C06Labels(c) ==
   \cup (IF c.frame.msgs # c.msgs THEN {"messages-modified"} ELSE {})
   \cup (IF ~c.frame.specSame THEN {"spec-modified"} ELSE {})
   \cup (IF ~c.frame.ctlSame THEN {"control-modified"} ELSE {})
+  \cup (IF ~c.frame.propsSame THEN {"props-modified"} ELSE {})
   \cup (IF c.frame.sharesBs THEN {"result-shares-bindings-map"} ELSE {})
   \cup (IF Returned(c) /\ c.repeat.outcome = "returned" /\ c.repeat.walked /\ AllJudgeable(c) /\ ~c.nilbs /\ (\A i \in DOMAIN S(c) : ~S(c)[i].q)
            /\ (\A i \in DOMAIN S(c) :
